@@ -21,7 +21,7 @@ ASSUMPTIONS = [
     "strictly positive finite values only (the property's domain)",
 ]
 MIN_NONTRIVIAL = {"quick": 3000, "thorough": 60000}
-REQUIRED_LABELS = ["shape.absrel", "shape.rising", "mdd.zero", "mdd.absrel_differs", "perf.with_benchmark"]
+REQUIRED_LABELS = ["shape.absrel", "shape.rising", "mdd.zero", "mdd.absrel_differs", "perf.with_benchmark", "bench_index.range", "bench_index.shift"]
 
 EPS = 2.220446049250313e-16
 SHAPES = ["walk", "rising", "falling", "vshape", "plateau", "absrel", "dust", "walk"]
@@ -47,6 +47,9 @@ def st_case(draw):
         "rescale": draw(st.sampled_from([1e-3, 0.5, 3.0, 7.25, 1e6])),
         "as_decimal": draw(st.booleans()),
         "start_min": draw(st.integers(0, 2 * 1440)),
+        # the benchmark is "a list of values" paired bar by bar: its index may be the net-value index, a plain RangeIndex,
+        # or time stamps of another convention (bar close instead of bar open)
+        "bidx": draw(st.sampled_from(["same", "range", "shift", "offset"])),
     }
 
 
@@ -154,7 +157,8 @@ def body(case, ctx: Ctx):
     tol = 1e-9
     tol_pow = 1e-9 + 8 * n * EPS * expo
     s = pd.Series(v)
-    sb = pd.Series(b)
+    bidx = case.get("bidx", "same")
+    sb = pd.Series(b, index=range(3, 3 + n)) if bidx in ("shift", "offset") else pd.Series(b)
     info = {k: case[k] for k in case if k not in ("u", "ub")}
     info["values_head"] = v[:8]
     labels = [f"shape.{case['shape']}", f"interval.{case['interval_min']}"]
@@ -250,12 +254,25 @@ def body(case, ctx: Ctx):
                 atol = tol_pow * (abs(apr_m) + abs(beta_ref * apr_b) + 1) + btol * abs(apr_b)
                 ctx.check(abs(al - alpha_ref) <= atol, "risk.alpha", lambda: f"{al!r} vs {alpha_ref!r}", case)
                 labels.append("risk.alpha_beta")
+                ab_ref = (alpha_ref, beta_ref, atol, btol)
 
     # ---- performance_metrics equals the individual functions
+    ab_ref = locals().get("ab_ref")
     idx = pd.date_range(pd.Timestamp("2024-01-01") + pd.Timedelta(minutes=case["start_min"]), periods=n, freq=f"{case['interval_min']}min")
     ser = pd.Series([Decimal(repr(x)) for x in v] if case["as_decimal"] else v, index=idx)
     with_b = case["scale_exp"] % 2 == 0
-    bser = pd.Series(b, index=idx) if with_b else None
+    if bidx == "range":
+        bser = pd.Series(b)
+    elif bidx == "shift":
+        bser = pd.Series(b, index=idx + (idx[1] - idx[0]))
+    elif bidx == "offset":
+        bser = pd.Series(b, index=idx + pd.Timedelta(seconds=30))
+    else:
+        bser = pd.Series(b, index=idx)
+    if not with_b:
+        bser = None
+    else:
+        labels.append(f"bench_index.{bidx}")
     pm = G("performance_metrics", performance_metrics, ser, case["rf"], bser)
     if pm is not None:
         labels.append("perf.with_benchmark" if with_b else "perf.no_benchmark")
@@ -272,6 +289,9 @@ def body(case, ctx: Ctx):
         ctx.check(pm[MetricEnum.start_period] == idx[0] and pm[MetricEnum.end_period] == idx[-1] and pm[MetricEnum.duration] == (idx[-1] - idx[0]) + (idx[1] - idx[0]), "perf.period", "start/end/duration", case)
         if n >= 3:
             ctx.check(abs(pm[MetricEnum.volatility] - vol_ref) <= vtol(vol_ref), "perf.volatility", lambda: f"{pm[MetricEnum.volatility]!r} vs {vol_ref!r}", case)
+        if with_b and ab_ref is not None:
+            ctx.check(abs(pm[MetricEnum.beta] - ab_ref[1]) <= ab_ref[3], "perf.beta", lambda: f"performance_metrics beta {pm[MetricEnum.beta]!r} vs {ab_ref[1]!r} (benchmark index: {bidx})", case)
+            ctx.check(abs(pm[MetricEnum.alpha] - ab_ref[0]) <= ab_ref[2], "perf.alpha", lambda: f"performance_metrics alpha {pm[MetricEnum.alpha]!r} vs {ab_ref[0]!r} (benchmark index: {bidx})", case)
         if with_b:
             ctx.check(near(pm[MetricEnum.benchmark_rate], b[-1] / b[0] - 1, tol), "perf.benchmark_rate", lambda: f"{pm[MetricEnum.benchmark_rate]!r}", case)
             bref = (b[-1] / b[0]) ** expo - 1
